@@ -2,8 +2,8 @@
   C04 — generated JavaScript ≡ Go renderer, COMMAND level (partial).
 
   The fragment: raw text, `{print}` with directives, `{let $x: e /}`, `{if}/{elseif}/{else}`,
-  `{foreach $x in e}…{ifempty}…{/foreach}`, `{for $i in range(a[, b[, c]])}` (c a positive literal), the
-  expressions of Props/C04c inside them.
+  `{foreach $x in e}…{ifempty}…{/foreach}`, `{for $i in range(a[, b[, c]])}` (c a positive literal),
+  `{switch}` (`{default}` last), the expressions of Props/C04c inside them.
 
   1. `toCmds` translates the commands, in the generator scope they are met in, to the statement AST of
      Spec/JsStmt; `walkCmds_renders`: the generator model writes EXACTLY `renderStmts` of the
@@ -110,6 +110,25 @@ def forcJoin (v : Bytes) (list : Expr) (sc : Scope) (rb : Option (JsStmts × Sco
             | some re => some (foreachStmts (sc.pushForEach v).1 j rb.1 (some re.1), re.2)))
     | _, _ => none
 
+/-- the case labels of a clause -/
+def astList (sc : Scope) : List Expr → Option (List JsExpr)
+  | [] => some []
+  | e :: r =>
+    match toAst sc e, astList sc r with
+    | some j, some js => some (j :: js)
+    | _, _ => none
+
+/-- one `{case v, …}` / `{default}` clause from the translations of its parts; `{default}` is the last clause -/
+def caseJoin (sc : Scope) (values : List Expr) (rb : Option (JsStmts × Scope)) (last : Bool)
+    (rest : Scope → Option (JsCases × Scope)) : Option (JsCases × Scope) :=
+  match rb with
+  | none => none
+  | some rb =>
+    if values.isEmpty then (if last then some (.dflt rb.1, rb.2) else none)
+    else match astList sc values, rest rb.2 with
+      | some js, some rr => some (.cons js rb.1 rr.1, rr.2)
+      | _, _ => none
+
 /-- a loop command: `{foreach}` over a list, else `{for}` over a range -/
 def loopJoin (v : Bytes) (list : Expr) (sc : Scope) (rbEach : Option (JsStmts × Scope))
     (ie : Option (Scope → Option (JsStmts × Scope))) (rbRange : Option (JsStmts × Scope)) (noIfEmpty : Bool) :
@@ -147,6 +166,10 @@ mutual
           | none => none
           | some ie => some (toBlock ie))
         (toBody body (sc.pushForRange v).2) ifEmpty.isNone
+    | .switch _ value cases, sc =>
+      match toAst sc value, toCases cases sc with
+      | some j, some rc => some (.one (.switchS j rc.1), rc.2)
+      | _, _ => none
     | _, _ => none
   /-- the body of a loop: in the loop's frame -/
   def toBody : Block → Scope → Option (JsStmts × Scope)
@@ -166,6 +189,10 @@ mutual
         match toCmds rest r1.2 with
         | none => none
         | some r2 => some (r1.1.append r2.1, r2.2)
+  def toCases : CaseList → Scope → Option (JsCases × Scope)
+    | .nil, sc => some (.nil, sc)
+    | .cons _ values body rest, sc =>
+      caseJoin sc values (toBlock body sc) (match rest with | .nil => true | _ => false) (toCases rest)
   def toConds : CondList → Scope → Option (JsConds × Scope)
     | .nil, sc => some (.nil, sc)
     | .cons _ cond body rest, sc =>
@@ -220,6 +247,9 @@ mutual
       [.fixed (spaces ind), .fixed b!"for (var ", .ident i, .fixed b!" = "] ++ render init ++
         [.fixed b!"; ", .ident i, .fixed b!" < ", .ident lim, .fixed b!"; ", .ident i, .fixed b!" += "] ++ render incr ++
         [.fixed b!") {", .fixed [10]] ++ renderStmts (ind + 1) body ++ [.fixed (spaces ind), .fixed b!"}", .fixed [10]]
+    | .switchS e cases =>
+      [.fixed (spaces ind), .fixed b!"switch ("] ++ render e ++ [.fixed b!") {", .fixed [10]] ++ renderCases (ind + 1) cases ++
+        [.fixed (spaces ind), .fixed b!"}", .fixed [10]]
     | .ifPos lim body els =>
       [.fixed (spaces ind), .fixed b!"if (", .ident lim, .fixed b!" > 0) {", .fixed [10]] ++ renderStmts (ind + 1) body ++
         [.fixed (spaces ind), .fixed b!"} else {", .fixed [10]] ++ renderStmts (ind + 1) els ++
@@ -227,6 +257,14 @@ mutual
   def renderStmts (ind : Nat) : JsStmts → List Piece
     | .nil => []
     | .cons s r => renderStmt ind s ++ renderStmts ind r
+  def renderCases (ind : Nat) : JsCases → List Piece
+    | .nil => []
+    | .dflt body =>
+      [.fixed (spaces ind), .fixed b!"default:", .fixed [10]] ++ renderStmts (ind + 1) body ++
+        [.fixed (spaces (ind + 1)), .fixed b!"break;", .fixed [10]]
+    | .cons labels body rest =>
+      labels.flatMap (fun j => [.fixed (spaces ind), .fixed b!"case "] ++ render j ++ [.fixed b!":", .fixed [10]]) ++
+        renderStmts (ind + 1) body ++ [.fixed (spaces (ind + 1)), .fixed b!"break;", .fixed [10]] ++ renderCases ind rest
   def renderConds (ind : Nat) : JsConds → Bool → List Piece
     | .nil, _ => []
     | .els body, first =>
@@ -580,6 +618,34 @@ theorem rangeJoin_some {v : Bytes} {list : Expr} {sc : Scope} {rb : Option (JsSt
                 exact ⟨args, l, c, jl, ji, rbv, p, rfl, hl, hinc, hpos, hjl, hji, rfl, h.symm⟩
         · cases h
 
+theorem caseJoin_some {sc : Scope} {values : List Expr} {rb : Option (JsStmts × Scope)} {last : Bool}
+    {rest : Scope → Option (JsCases × Scope)} {r : JsCases × Scope} (h : caseJoin sc values rb last rest = some r) :
+    ∃ rbv, rb = some rbv ∧
+      ((values = [] ∧ last = true ∧ r = (.dflt rbv.1, rbv.2)) ∨
+       (values ≠ [] ∧ ∃ js rr, astList sc values = some js ∧ rest rbv.2 = some rr ∧ r = (.cons js rbv.1 rr.1, rr.2))) := by
+  unfold caseJoin at h
+  cases rb with
+  | none => cases h
+  | some rbv =>
+    refine ⟨rbv, rfl, ?_⟩
+    simp only at h
+    cases values with
+    | nil =>
+      simp only [List.isEmpty_nil, if_true] at h
+      cases last <;> simp at h
+      exact Or.inl ⟨rfl, rfl, h.symm⟩
+    | cons v0 vr =>
+      simp only [List.isEmpty_cons, Bool.false_eq_true, if_false] at h
+      refine Or.inr ⟨by simp, ?_⟩
+      cases hjs : astList sc (v0 :: vr) with
+      | none => simp [hjs] at h
+      | some js =>
+        cases hr : rest rbv.2 with
+        | none => simp [hjs, hr] at h
+        | some rr =>
+          simp only [hjs, hr, Option.some.injEq] at h
+          exact ⟨js, rr, rfl, rfl, h.symm⟩
+
 section
 variable (sk : List Bytes → List Bytes) (o : Options)
 variable {ind : Nat} {buf : Bytes} {ae : Autoescape} {sc : Scope}
@@ -641,6 +707,62 @@ theorem forc_range_runs (p : Nat) (v : Bytes) (list : Expr) (body : Block) (args
   try dsimp only
   exact (Runs.seq (Runs.setScope _) (Runs.seq Runs.indentP (Runs.seq (Runs.fx _) (Runs.seq (Runs.emit _) (Runs.seq (Runs.fx _) (Runs.seq (Runs.emits _) (Runs.seq (Runs.fx _) (Runs.seq Runs.nl (Runs.seq Runs.indentP (Runs.seq (Runs.fx _) (Runs.seq (Runs.emit _) (Runs.seq (Runs.fx _) (Runs.seq (Runs.emits _) (Runs.seq (Runs.fx _) (Runs.seq (Runs.emit _) (Runs.seq (Runs.fx _) (Runs.seq (Runs.emit _) (Runs.seq (Runs.fx _) (Runs.seq (Runs.emit _) (Runs.seq (Runs.fx _) (Runs.seq (Runs.emits _) (Runs.seq (Runs.fx _) (Runs.seq Runs.nl (Runs.seq Runs.incIndent (Runs.seq hb (Runs.seq Runs.decIndent (Runs.seq Runs.indentP (Runs.seq (Runs.fx _) (Runs.seq Runs.nl (Runs.popScope)))))))))))))))))))))))))))))).cast
     (by simp [rangeStmts, renderStmts, renderStmt, JsStmts.one])
+
+/-! ### switch -/
+
+theorem labels_runs : ∀ (values : List Expr) (js : List JsExpr), astList sc values = some js →
+    Runs (At ind buf ae sc) (At ind buf ae sc)
+      (JsGen.seqM (values.map fun v => do indentP; fx b!"case "; walkExpr sk o v; fx b!":"; nl))
+      (js.flatMap fun j => [.fixed (spaces ind), .fixed b!"case "] ++ render j ++ [.fixed b!":", .fixed [10]])
+  | [], js, h => by
+    simp only [astList, Option.some.injEq] at h; subst h
+    exact Runs.pure
+  | v :: r, js, h => by
+    unfold astList at h
+    cases hj : toAst sc v with
+    | none => simp [hj] at h
+    | some j =>
+      cases hr : astList sc r with
+      | none => simp [hj, hr] at h
+      | some jr =>
+        simp only [hj, hr, Option.some.injEq] at h; subst h
+        have h1 := walkExpr_renders sk o sc v j hj
+        have h2 := labels_runs r jr hr
+        exact (Runs.seq (Runs.seq Runs.indentP (Runs.seq (Runs.fx _) (Runs.seq (Runs.expr h1) (Runs.seq (Runs.fx _) Runs.nl))))
+          h2).cast (by simp)
+
+theorem cases_nil_runs : Runs (At ind buf ae sc) (At ind buf ae sc) (visitCases sk o .nil) (renderCases ind .nil) := by
+  sunfold visitCases
+  exact Runs.pure
+
+theorem cases_dflt_runs (p : Nat) (body : Block) (b : JsStmts) (sc1 : Scope)
+    (hb : Runs (At (ind + 1) buf ae sc) (At (ind + 1) buf ae sc1) (walkBlock sk o body) (renderStmts (ind + 1) b)) :
+    Runs (At ind buf ae sc) (At ind buf ae sc1) (visitCases sk o (.cons p [] body .nil)) (renderCases ind (.dflt b)) := by
+  sunfold visitCases
+  exact (Runs.seq Runs.pure (Runs.seq (Runs.whenTrue (Runs.seq Runs.indentP (Runs.seq (Runs.fx _) Runs.nl)))
+    (Runs.seq Runs.incIndent (Runs.seq hb (Runs.seq Runs.indentP (Runs.seq (Runs.fx _) (Runs.seq Runs.nl
+      (Runs.seq Runs.decIndent (cases_nil_runs sk o))))))))).cast (by simp [renderCases])
+
+theorem cases_cons_runs (p : Nat) (v0 : Expr) (vr : List Expr) (body : Block) (rest : CaseList) (js : List JsExpr)
+    (b : JsStmts) (rr : JsCases) (sc1 sc2 : Scope) (hjs : astList sc (v0 :: vr) = some js)
+    (hb : Runs (At (ind + 1) buf ae sc) (At (ind + 1) buf ae sc1) (walkBlock sk o body) (renderStmts (ind + 1) b))
+    (hr : Runs (At ind buf ae sc1) (At ind buf ae sc2) (visitCases sk o rest) (renderCases ind rr)) :
+    Runs (At ind buf ae sc) (At ind buf ae sc2) (visitCases sk o (.cons p (v0 :: vr) body rest))
+      (renderCases ind (.cons js b rr)) := by
+  sunfold visitCases
+  exact (Runs.seq (labels_runs sk o (v0 :: vr) js hjs) (Runs.seq Runs.whenFalse
+    (Runs.seq Runs.incIndent (Runs.seq hb (Runs.seq Runs.indentP (Runs.seq (Runs.fx _) (Runs.seq Runs.nl
+      (Runs.seq Runs.decIndent hr)))))))).cast (by simp [renderCases])
+
+theorem switch_runs (p : Nat) (value : Expr) (cases : CaseList) (j : JsExpr) (cs : JsCases) (sc' : Scope)
+    (hj : toAst sc value = some j)
+    (h : Runs (At (ind + 1) buf ae sc) (At (ind + 1) buf ae sc') (visitCases sk o cases) (renderCases (ind + 1) cs)) :
+    Runs (At ind buf ae sc) (At ind buf ae sc') (walkCmd sk o (.switch p value cases)) (renderStmts ind (.one (.switchS j cs))) := by
+  sunfold walkCmd
+  have hv := walkExpr_renders sk o sc value j hj
+  exact (Runs.seq Runs.atOther (Runs.seq Runs.indentP (Runs.seq (Runs.fx _) (Runs.seq (Runs.expr hv) (Runs.seq (Runs.fx _)
+    (Runs.seq Runs.nl (Runs.seq Runs.incIndent (Runs.seq h (Runs.seq Runs.decIndent (Runs.seq Runs.indentP
+      (Runs.seq (Runs.fx _) Runs.nl))))))))))).cast (by simp [renderStmts_one, renderStmt])
 
 end
 
@@ -706,13 +828,44 @@ mutual
       obtain ⟨re, hre, rfl⟩ := he
       exact forc_some_runs sk o p v list body ie j rbv re hr hj (walkBody_renders body _ rbv hrb (ind + 1 + 1))
         (walkBlock_renders ie _ re hre (ind + 1))
-    | .switch .., _, _, h, _ => by simp [toCmd] at h
+    | .switch p value cases, sc, r, h, ind => by
+      unfold toCmd at h
+      split at h
+      · rename_i j rc hj hrc
+        simp only [Option.some.injEq] at h; subst h
+        exact switch_runs sk o p value cases j rc.1 rc.2 hj (visitCases_renders cases sc rc hrc (ind + 1))
+      · cases h
     | .call .., _, _, h, _ => by simp [toCmd] at h
     | .letContent .., _, _, h, _ => by simp [toCmd] at h
     | .headerParam .., _, _, h, _ => by simp [toCmd] at h
     | .namespace .., _, _, h, _ => by simp [toCmd] at h
     | .template .., _, _, h, _ => by simp [toCmd] at h
     | .soyDoc .., _, _, h, _ => by simp [toCmd] at h
+  theorem visitCases_renders : ∀ (cs : CaseList) (sc : Scope) (r : JsCases × Scope), toCases ae buf cs sc = some r →
+      ∀ ind, Runs (At ind buf ae sc) (At ind buf ae r.2) (visitCases sk o cs) (renderCases ind r.1)
+    | .nil, sc, r, h, ind => by
+      simp only [toCases, Option.some.injEq] at h; subst h
+      exact cases_nil_runs sk o
+    | .cons p values body .nil, sc, r, h, ind => by
+      unfold toCases at h
+      obtain ⟨rbv, hrb, hc⟩ := caseJoin_some h
+      rcases hc with ⟨rfl, _, rfl⟩ | ⟨hne, js, rr, hjs, hrr, rfl⟩
+      · exact cases_dflt_runs sk o p body rbv.1 rbv.2 (walkBlock_renders body sc rbv hrb (ind + 1))
+      · cases values with
+        | nil => exact absurd rfl hne
+        | cons v0 vr =>
+          exact cases_cons_runs sk o p v0 vr body .nil js rbv.1 rr.1 rbv.2 rr.2 hjs
+            (walkBlock_renders body sc rbv hrb (ind + 1)) (visitCases_renders .nil rbv.2 rr hrr ind)
+    | .cons p values body (.cons p2 v2 b2 r2), sc, r, h, ind => by
+      unfold toCases at h
+      obtain ⟨rbv, hrb, hc⟩ := caseJoin_some h
+      rcases hc with ⟨_, hl, _⟩ | ⟨hne, js, rr, hjs, hrr, rfl⟩
+      · simp at hl
+      · cases values with
+        | nil => exact absurd rfl hne
+        | cons v0 vr =>
+          exact cases_cons_runs sk o p v0 vr body _ js rbv.1 rr.1 rbv.2 rr.2 hjs
+            (walkBlock_renders body sc rbv hrb (ind + 1)) (visitCases_renders (.cons p2 v2 b2 r2) rbv.2 rr hrr ind)
   theorem walkBody_renders : ∀ (b : Block) (sc : Scope) (r : JsStmts × Scope), toBody ae buf b sc = some r →
       ∀ ind, Runs (At ind buf ae sc) (At ind buf ae r.2) (walkBody sk o b) (renderStmts ind r.1)
     | .mk p cmds, sc, r, h, ind => by
@@ -816,6 +969,8 @@ mutual
             | none => .val ([], env)
           else (Spec.Eval.loopSpec (refBlock body) env var (xs.length - 1) xs 0).bind fun out => .val (out, env)
         | _ => .error
+    | .switch _ value cases, env =>
+      (Spec.Eval.eval env value).bind fun sv => (refCases cases sv env).bind fun out => .val (out, env)
     | _, _ => .unspec
   def refBlock : Block → SEnv → Out Bytes
     | .mk _ cmds, env => refCmds cmds env
@@ -823,6 +978,12 @@ mutual
     | .nil, _ => .val []
     | .cons c rest, env =>
       (refCmd c env).bind fun r => (refCmds rest r.2).bind fun more => .val (r.1 ++ more)
+  def refCases : CaseList → Val → SEnv → Out Bytes
+    | .nil, _, _ => .val []
+    | .cons _ values body rest, sv, env =>
+      if values.isEmpty then refBlock body env
+      else (Spec.Eval.matchAny env sv values).bind fun hit =>
+        if hit then refBlock body env else refCases rest sv env
   def refConds : CondList → SEnv → Out Bytes
     | .nil, _ => .val []
     | .cons _ cond body rest, env =>
@@ -1090,13 +1251,33 @@ mutual
       have hn : sc.n ≤ rbv.2.pop.n := by simp only [Scope.pop]; omega
       obtain ⟨c1, c2⟩ := toBlock_scope ie _ re hre (scOk_of_stack hs hst hn)
       exact ⟨scOk_of_stack hs (c1.trans hst) (Nat.le_trans hn c2), by simp only [c1, hst], Nat.le_trans hn c2⟩
-    | .switch .., _, _, h, _ => by simp [toCmd] at h
+    | .switch p value cases, sc, r, h, hs => by
+      unfold toCmd at h
+      split at h
+      · rename_i j rc hj hrc
+        simp only [Option.some.injEq] at h; subst h
+        obtain ⟨h1, h2⟩ := toCases_scope cases sc rc hrc hs
+        exact ⟨scOk_of_stack hs h1 h2, by simp only [h1], h2⟩
+      · cases h
     | .call .., _, _, h, _ => by simp [toCmd] at h
     | .letContent .., _, _, h, _ => by simp [toCmd] at h
     | .headerParam .., _, _, h, _ => by simp [toCmd] at h
     | .namespace .., _, _, h, _ => by simp [toCmd] at h
     | .template .., _, _, h, _ => by simp [toCmd] at h
     | .soyDoc .., _, _, h, _ => by simp [toCmd] at h
+  theorem toCases_scope : ∀ (cs : CaseList) (sc : Scope) (r : JsCases × Scope), toCases ae buf cs sc = some r → ScOk sc →
+      r.2.stack = sc.stack ∧ sc.n ≤ r.2.n
+    | .nil, sc, r, h, hs => by
+      simp only [toCases, Option.some.injEq] at h; subst h
+      exact ⟨rfl, Nat.le_refl _⟩
+    | .cons p values body rest, sc, r, h, hs => by
+      unfold toCases at h
+      obtain ⟨rbv, hrb, hc⟩ := caseJoin_some h
+      obtain ⟨a1, a2⟩ := toBlock_scope body sc rbv hrb hs
+      rcases hc with ⟨_, _, rfl⟩ | ⟨_, js, rr, _, hrr, rfl⟩
+      · exact ⟨a1, a2⟩
+      · obtain ⟨b1, b2⟩ := toCases_scope rest rbv.2 rr hrr (scOk_of_stack hs a1 a2)
+        exact ⟨b1.trans a1, Nat.le_trans a2 b2⟩
   theorem toBody_scope : ∀ (b : Block) (sc : Scope) (r : JsStmts × Scope), toBody ae buf b sc = some r → ScOk sc →
       ScOk r.2 ∧ r.2.stack.tail = sc.stack.tail ∧ sc.n ≤ r.2.n
     | .mk p cmds, sc, r, h, hs => by
@@ -1338,6 +1519,12 @@ def CondsOk (cs : CondList) : Prop :=
     execConds F fuel r.1 jenv = .ok jenv' →
     ∃ text, refConds F ae cs env = .val text ∧ BufIs buf jenv' (out ++ text) ∧ Keeps buf sc.n jenv jenv'
 
+def CasesOk (cs : CaseList) : Prop :=
+  ∀ (fuel : Nat) (sc : Scope) (r : JsCases × Scope) (env : SEnv) (jenv jenv' : JEnv) (out : Bytes) (sv : Val) (jv : JVal),
+    toCases ae buf cs sc = some r → ScOk sc → EnvRel sc env jenv → BufIs buf jenv out → toJsV sv = some jv →
+    execCases F fuel r.1 jv jenv = .ok jenv' →
+    ∃ text, refCases F ae cs sv env = .val text ∧ BufIs buf jenv' (out ++ text) ∧ Keeps buf sc.n jenv jenv'
+
 variable (hbuf : buf.contains 36 = false)
 include hbuf
 
@@ -1521,6 +1708,124 @@ theorem conds_else_ok (p : Nat) (body : Block) (rest : CondList) (ih1 : BlockOk 
     simp only [execConds] at hx
     obtain ⟨text, ht, hb', hk⟩ := ih1 fuel sc rb env jenv jenv' out hbk hs hrel hb hx
     exact ⟨text, by simp only [refConds]; exact ht, hb', hk⟩
+  · cases h
+
+/-! ### switch -/
+
+omit hbuf in
+/-- `===` on images is the specification's equality -/
+theorem strictEq_corr {a b : Val} {ja jb : JVal} {c : Bool} (ha : toJsV a = some ja) (hb : toJsV b = some jb)
+    (h : strictEq ja jb = some c) : Spec.Eval.equalsV a b = .val c := by
+  cases ja <;> cases jb <;> simp only [strictEq, Option.some.injEq, reduceCtorEq] at h
+  all_goals subst h
+  all_goals
+    first
+      | (have := C04c.toJsV_null ha; subst this)
+      | (have := C04c.toJsV_bool ha; subst this)
+      | (obtain ⟨rfl, _⟩ := C04c.toJsV_num ha)
+      | (have := C04c.toJsV_str ha; subst this)
+  all_goals
+    first
+      | (have := C04c.toJsV_null hb; subst this)
+      | (have := C04c.toJsV_bool hb; subst this)
+      | (obtain ⟨rfl, _⟩ := C04c.toJsV_num hb)
+      | (have := C04c.toJsV_str hb; subst this)
+  all_goals simp [Spec.Eval.equalsV]
+
+omit hbuf in
+/-- the labels: `matchLabels` on the translation is `matchAny` -/
+theorem matchLabels_corr {sc : Scope} {env : SEnv} {jenv : JEnv} (hrel : EnvRel sc env jenv) {sv : Val} {jv : JVal}
+    (hsv : toJsV sv = some jv) : ∀ (values : List Expr) (js : List JsExpr) (b : Bool), astList sc values = some js →
+    matchLabels jenv jv js = some (.inr b) → Spec.Eval.matchAny env sv values = .val b
+  | [], js, b, h, hm => by
+    simp only [astList, Option.some.injEq] at h; subst h
+    simp only [matchLabels, Option.some.injEq, Sum.inr.injEq] at hm
+    subst hm
+    rfl
+  | v :: r, js, b, h, hm => by
+    unfold astList at h
+    cases hj : toAst sc v with
+    | none => simp [hj] at h
+    | some j =>
+      cases hr : astList sc r with
+      | none => simp [hj, hr] at h
+      | some jr =>
+        simp only [hj, hr, Option.some.injEq] at h; subst h
+        unfold matchLabels at hm
+        cases hw : eval jenv j with
+        | val w =>
+          simp only [hw] at hm
+          obtain ⟨vw, hvw, hvwj⟩ := C04c.gen_correct_refs_partial sc env jenv hrel v j w hj hw
+          cases hse : strictEq jv w with
+          | none => simp [hse] at hm
+          | some c =>
+            have heq := strictEq_corr hsv hvwj hse
+            cases c with
+            | true =>
+              simp only [hse, Option.some.injEq, Sum.inr.injEq] at hm
+              subst hm
+              simp [Spec.Eval.matchAny, hvw, heq, Spec.Eval.Out.bind]
+            | false =>
+              simp only [hse] at hm
+              have := matchLabels_corr hrel hsv r jr b hr hm
+              simp [Spec.Eval.matchAny, hvw, heq, Spec.Eval.Out.bind, this]
+        | error => simp [hw] at hm
+        | unspec => simp [hw] at hm
+
+omit hbuf in
+theorem cases_nil_ok : CasesOk F ae buf .nil := by
+  intro fuel sc r env jenv jenv' out sv jv h hs hrel hb hsv hx
+  simp only [toCases, Option.some.injEq] at h; subst h
+  simp only [execCases, SRes.ok.injEq] at hx
+  subst hx
+  exact ⟨[], by simp [refCases], by simpa using hb, Keeps.refl _ _ _⟩
+
+omit hbuf in
+theorem cases_cons_ok (p : Nat) (values : List Expr) (body : Block) (rest : CaseList) (ih1 : BlockOk F ae buf body)
+    (ih2 : CasesOk F ae buf rest) : CasesOk F ae buf (.cons p values body rest) := by
+  intro fuel sc r env jenv jenv' out sv jv h hs hrel hb hsv hx
+  unfold toCases at h
+  obtain ⟨rbv, hrb, hc⟩ := caseJoin_some h
+  rcases hc with ⟨rfl, _, rfl⟩ | ⟨hne, js, rr, hjs, hrr, rfl⟩
+  · simp only [execCases] at hx
+    obtain ⟨text, ht, hb', hk⟩ := ih1 fuel sc rbv env jenv jenv' out hrb hs hrel hb hx
+    exact ⟨text, by simp [refCases, ht], hb', hk⟩
+  · have hem : values.isEmpty = false := by cases values <;> simp at hne ⊢
+    simp only [execCases] at hx
+    cases hm : matchLabels jenv jv js with
+    | none => simp [hm] at hx
+    | some res =>
+      cases res with
+      | inl o => cases o <;> simp [hm] at hx
+      | inr b =>
+        have hany := matchLabels_corr hrel hsv values js b hjs hm
+        cases b with
+        | true =>
+          simp only [hm] at hx
+          obtain ⟨text, ht, hb', hk⟩ := ih1 fuel sc rbv env jenv jenv' out hrb hs hrel hb hx
+          exact ⟨text, by simp [refCases, hem, hany, Spec.Eval.Out.bind, ht], hb', hk⟩
+        | false =>
+          simp only [hm] at hx
+          obtain ⟨a1, a2⟩ := toBlock_scope ae buf body sc rbv hrb hs
+          obtain ⟨text, ht, hb', hk⟩ := ih2 fuel rbv.2 rr env jenv jenv' out sv jv hrr (scOk_of_stack hs a1 a2)
+            (envRel_stack hrel a1) hb hsv hx
+          exact ⟨text, by simp [refCases, hem, hany, Spec.Eval.Out.bind, ht], hb', hk.mono a2⟩
+
+theorem switch_ok (p : Nat) (value : Expr) (cases : CaseList) (ih : CasesOk F ae buf cases) :
+    CmdOk F ae buf (.switch p value cases) := by
+  intro fuel sc r env jenv jenv' out h hs hrel hb hx
+  unfold toCmd at h
+  split at h
+  · rename_i j rc hj hrc
+    simp only [Option.some.injEq] at h; subst h
+    rw [execStmts_one] at hx
+    simp only [execStmt] at hx
+    obtain ⟨jv, hjv, hx⟩ := withVal_ok hx
+    obtain ⟨sv, hsv, hsvj⟩ := C04c.gen_correct_refs_partial sc env jenv hrel value j jv hj hjv
+    obtain ⟨text, ht, hb', hk⟩ := ih fuel sc rc env jenv jenv' out sv jv hrc hs hrel hb hsvj hx
+    obtain ⟨h1, _⟩ := toCases_scope ae buf cases sc rc hrc hs
+    exact ⟨text, env, by simp [refCmd, hsv, ht, Spec.Eval.Out.bind],
+      envRel_keep hrel hk hs.2 (Nat.le_refl _) hbuf h1, hb', hk⟩
   · cases h
 
 /-! ### foreach -/
@@ -2201,7 +2506,7 @@ mutual
     | .log .. => fun _ _ _ _ _ _ _ h => by simp [toCmd] at h
     | .forc p v list body none => forc_none_ok F ae buf hbuf p v list body (body_ok' body)
     | .forc p v list body (some ie) => forc_some_ok F ae buf hbuf p v list body ie (body_ok' body) (block_ok' ie)
-    | .switch .. => fun _ _ _ _ _ _ _ h => by simp [toCmd] at h
+    | .switch p value cases => switch_ok F ae buf hbuf p value cases (cases_ok cases)
     | .call .. => fun _ _ _ _ _ _ _ h => by simp [toCmd] at h
     | .letContent .. => fun _ _ _ _ _ _ _ h => by simp [toCmd] at h
     | .headerParam .. => fun _ _ _ _ _ _ _ h => by simp [toCmd] at h
@@ -2215,6 +2520,9 @@ mutual
   theorem cmds_ok : ∀ cs : CmdList, CmdsOk F ae buf cs
     | .nil => cmds_nil_ok F ae buf
     | .cons c rest => cmds_cons_ok F ae buf c rest (cmd_ok c) (cmds_ok rest)
+  theorem cases_ok : ∀ cs : CaseList, CasesOk F ae buf cs
+    | .nil => cases_nil_ok F ae buf
+    | .cons p values body rest => cases_cons_ok F ae buf p values body rest (block_ok' body) (cases_ok rest)
   theorem conds_ok : ∀ cs : CondList, CondsOk F ae buf cs
     | .nil => conds_nil_ok F ae buf
     | .cons p (some c) body rest => conds_some_ok F ae buf p c body rest (block_ok' body) (conds_ok rest)
@@ -2229,8 +2537,8 @@ section
 variable (F : Bytes → List Expr → JVal → JOut) (ae : Autoescape) (buf : Bytes)
 
 /-- PARTIAL (C04, command level).  For a list of commands of the fragment — raw text, `{print}` with
-    directives, `{let $x: e /}`, `{if}/{elseif}/{else}`, `{foreach}` / `{ifempty}`, `{for … in range(…)}`, over the
-    expressions of Props/C04c — met in the
+    directives, `{let $x: e /}`, `{if}/{elseif}/{else}`, `{foreach}` / `{ifempty}`, `{for … in range(…)}`, `{switch}`, over
+    the expressions of Props/C04c — met in the
     generator scope `sc` with output variable `buf`:
     (a) the generator model writes exactly the statements `st` of the translation;
     (b) whenever these statements run to completion (Spec/JsStmt; every interpretation `F` of the
@@ -2276,6 +2584,7 @@ mutual
   def plainCmd : Cmd → Bool
     | .print _ _ dirs => dirs.isEmpty
     | .ifc _ conds => plainConds conds
+    | .switch _ _ cases => plainCases cases
     | .forc _ _ _ body ifEmpty =>
       plainBlock body && (match ifEmpty with
         | none => true
@@ -2286,6 +2595,9 @@ mutual
   def plainCmds : CmdList → Bool
     | .nil => true
     | .cons c r => plainCmd c && plainCmds r
+  def plainCases : CaseList → Bool
+    | .nil => true
+    | .cons _ _ body rest => plainBlock body && plainCases rest
   def plainConds : CondList → Bool
     | .nil => true
     | .cons _ _ body rest => plainBlock body && plainConds rest
@@ -2418,7 +2730,13 @@ mutual
           rw [loopSpec_le _ _ (fun env' o ho' => ref_le_spec_block body env' o hp.1 ho') env v _ xs 0 out ho]
           exact h
       | _ => cases h
-    | .switch .., _, _, _, h => by simp [refCmd] at h
+    | .switch p value cases, env, r, hp, h => by
+      rw [Spec.Eval.renderCmd]
+      simp only [refCmd] at h
+      obtain ⟨sv, hsv, h⟩ := out_bind_val h
+      obtain ⟨out, ho, h⟩ := out_bind_val h
+      have := ref_le_spec_cases cases sv env out (by simpa [plainCmd] using hp) ho
+      simp [hsv, this, Spec.Eval.Out.bind, h]
     | .call .., _, _, _, h => by simp [refCmd] at h
     | .letContent .., _, _, _, h => by simp [refCmd] at h
     | .headerParam .., _, _, _, h => by simp [refCmd] at h
@@ -2445,6 +2763,29 @@ mutual
       simp only [Spec.Eval.Out.bind]
       rw [ref_le_spec_cmds rest r1.2 more hp.2 h2]
       exact h
+  theorem ref_le_spec_cases : ∀ (cs : CaseList) (sv : Val) (env : SEnv) (out : Bytes), plainCases cs = true →
+      refCases F ae cs sv env = .val out → Spec.Eval.renderCases reg hasBundle (ae != .off) entry call cs sv env = .val out
+    | .nil, sv, env, out, _, h => by
+      rw [Spec.Eval.renderCases]
+      simpa [refCases] using h
+    | .cons p values body rest, sv, env, out, hp, h => by
+      rw [Spec.Eval.renderCases]
+      simp only [plainCases, Bool.and_eq_true] at hp
+      simp only [refCases] at h ⊢
+      by_cases hem : values.isEmpty = true
+      · simp only [hem, if_true] at h ⊢
+        exact ref_le_spec_block body env out hp.1 h
+      · simp only [hem, Bool.false_eq_true, if_false] at h ⊢
+        obtain ⟨hit, hh, h⟩ := out_bind_val h
+        rw [hh]
+        simp only [Spec.Eval.Out.bind]
+        cases hit with
+        | true =>
+          simp only [if_true] at h ⊢
+          exact ref_le_spec_block body env out hp.1 h
+        | false =>
+          simp only [Bool.false_eq_true, if_false] at h ⊢
+          exact ref_le_spec_cases rest sv env out hp.2 h
   theorem ref_le_spec_conds : ∀ (cs : CondList) (env : SEnv) (out : Bytes), plainConds cs = true →
       refConds F ae cs env = .val out → Spec.Eval.renderConds reg hasBundle (ae != .off) entry call cs env = .val out
     | .nil, env, out, _, h => by
@@ -2622,13 +2963,42 @@ example : (match toCmds .off b!"output" sampleRange ⟨[[]], 0⟩ with
 example : refCmds sampleF .off sampleRange
     { vars := [(b!"n", .int 6), (b!"i", .str b!"p")], loops := [], ij := none, globals := [] } = .val b!"1,3,5,p" := rfl
 
+/-- `{switch $n}{case 1, 2}low{let $n: 'x' /}{$n}{case 'a'}str{default}other{/switch}{$n}` -/
+def sampleSwitch : CmdList :=
+  .cons (.switch 0 (.dataRef 0 b!"n" .nil)
+    (.cons 0 [.int 0 1, .int 0 2] (.mk 0 (.cons (.rawText 0 b!"low") (.cons (.letValue 0 b!"n" (.str 0 b!"'x'" b!"x"))
+        (.cons (.print 0 (.dataRef 0 b!"n" .nil) []) .nil))))
+      (.cons 0 [.str 0 b!"'a'" b!"a"] (.mk 0 (.cons (.rawText 0 b!"str") .nil))
+        (.cons 0 [] (.mk 0 (.cons (.rawText 0 b!"other") .nil)) .nil))))
+  (.cons (.print 0 (.dataRef 0 b!"n" .nil) []) .nil)
+
+set_option maxRecDepth 8000 in
+example : (toCmds .off b!"output" sampleSwitch ⟨[[]], 0⟩).map (fun r => printPieces (renderStmts 1 r.1)) = some
+    b!"  switch (opt_data.n) {\n    case 1:\n    case 2:\n      output += 'low';\n      var n$1 = 'x';\n      output += n$1;\n      break;\n    case 'a':\n      output += 'str';\n      break;\n    default:\n      output += 'other';\n      break;\n  }\n  output += opt_data.n;\n" := rfl
+
+def switchRun (n : JVal) : Option JVal :=
+  match toCmds .off b!"output" sampleSwitch ⟨[[]], 0⟩ with
+  | some r =>
+    (match execStmts sampleF 10 r.1 ⟨[(b!"n", n)], none, [(b!"output", .str [])]⟩ with
+      | .ok e => (e.locals.find? (·.1 == b!"output")).map (·.2)
+      | _ => none)
+  | none => none
+
+example : switchRun (.num 2) = some (.str b!"lowx2") := rfl
+example : switchRun (.str b!"a") = some (.str b!"stra") := rfl
+example : switchRun (.bool true) = some (.str b!"othertrue") := rfl
+example : refCmds sampleF .off sampleSwitch { vars := [(b!"n", .int 2)], loops := [], ij := none, globals := [] } =
+    .val b!"lowx2" := rfl
+
 /-! ## what is proved, and what remains outside
 
   PROVED, for command lists built from raw text, `{print e |d…}` (directive arguments literal, every
   directive known to both backends), `{let $x: e /}`, `{if}/{elseif}/{else}`, `{foreach $x in e}` with
   or without `{ifempty}`, `{for $i in range(…)}` with one to three arguments (the step absent or a
   positive integer literal: the specification leaves a non-positive step open, and JavaScript then
-  loops forever or not at all) — nested at will — with `e` in the expression
+  loops forever or not at all), `{switch e}{case v, …}…{default}…{/switch}` (`===` on null / booleans /
+  numbers / strings against the specification's equality; `undefined` and lists / maps as switch value or label
+  are outside the subset) — nested at will — with `e` in the expression
   fragment of Props/C04c (literals, arithmetic / comparison / logic, `?:`, `?:`-elvis, variables and
   parameters with `.k` / `[i]` / `?.k` accesses, length / isNonnull / floor / ceiling / round / min /
   max; no floats, integers a double holds exactly):
@@ -2649,7 +3019,7 @@ example : refCmds sampleF .off sampleRange
   and a TypeError / nothing at all in JavaScript).
 
   OUTSIDE (no theorem at the command level): `range` with a computed step, the loop functions
-  index / isFirst / isLast, `{switch}`, `{call}` (needs a semantics of the generated FUNCTIONS and
+  index / isFirst / isLast, `{call}` (needs a semantics of the generated FUNCTIONS and
   of soy.$$augmentMap), `{msg}` (placeholders, plural), `{let}` / `{param}` with content (a second
   output variable), `{css}`, `{log}`, `{debugger}`, `$ij`, globals, print directives with
   non-literal arguments, the template header (`opt_data = opt_data || {}`, `return output`) and
